@@ -717,6 +717,8 @@ def check_C05(tier, seed):
     quick = tier == "quick"
     # (1) the numbers carried by the assertions, on the whole table (static projection, all representations)
     rep = check_static_structs("C05", tier, seed)
+    # unbounded lemmas behind Layout!RoundUp (least aligned offset, no overlap), proved with TLAPS
+    rep.mc.append(run_tlapm("LayoutLemmas.tla"))
     rng = random.Random(seed + 1)
     # (2) soundness: the module with assertions is compiled (accept / reject per struct), its twin without any
     #     derive is compiled and its real Rust layout measured; accepted => twin layout = WGSL layout
